@@ -23,6 +23,8 @@ var c12Routes = []string{
 	"/users/{user-id}/posts/{post.id}", "/{a~b}/{c@d: /x+/}", "/{k=v}-{l+m}", "/t/{(p)}/{**}",
 	// route shapes that a path-cleaning builder would alter: trailing slash, dot segments
 	"/d/{x}/", "/d/", "/./{x}", "/{x}/../{y}", "/d/./e/{x}/..", "/d/{x}/?",
+	// an optional last segment after binds that carry annotations (expression, capture limit)
+	"/u/{y: /[0-9]+/}/?e", "/f/{m: **, capture: 3}/r/?d", "/{y: /a+/, z: /b+/}/?{o}", "/u/{y: /[0-9]+/}/?{o: /e+/}",
 }
 
 var c12Values = []string{"\x00absent", "v", "", "{x}", "{y}", "{self}", "a/b", "}", "{", "%2F", "x y", "v/y/v"}
